@@ -22,6 +22,9 @@ for p in props:
     except ModuleNotFoundError:
         pass
     if meta and pid in RULES:
+        # the clause list is generated from the rule registry, so the claim always names exactly the rules that run
+        clauses = '; '.join(f'{rid}: {text}' for rid, fn, text, tier in RULES[pid])
+        meta = dict(meta, text=meta['text'] + ' Clauses decided (one rule each; a rule reports the construct that violates it): ' + clauses + '.')
         checks.append({
             'property_id': pid,
             'quick_cmd': f'/venv/bin/python -m sa.run {pid} --tier quick',
